@@ -101,8 +101,25 @@ def run_case(case, seed):
         r.true(key + ':dimension-attr', f.dimension == dim, 'dimension %r' % f.dimension)
         # array evaluation == point by point
         A = np.array(pts).T              # dim x m
+        A0 = A.copy()
         va = np.asarray(f(A), dtype=float)
         r.true(key + ':array-call', va.shape == (len(pts),) and np.allclose(va, vals, rtol=1e-13, atol=1e-13), 'array evaluation differs from pointwise')
+        r.true(key + ':array-call:input-unchanged', np.array_equal(A, A0), 'evaluation on an array modified the array')
+        vb = np.asarray(f(A), dtype=float)
+        r.true(key + ':array-call:repeatable', np.array_equal(va, vb), 'second evaluation on the same array differs')
+    # every method as the FIRST call on a fresh object (the dimension may have to be inferred by that very call)
+    p0 = pts[len(pts) // 2]
+    ref = make(dict(case, given=True))
+    firsts = [('call', lambda g: g(p0), lambda: ref(p0))]
+    if fam != 'Indicator':
+        firsts += [('partial', lambda g: g.partial(p0, idx), lambda: ref.partial(p0, idx)), ('gradient', lambda g: g.gradient(p0), lambda: ref.gradient(p0))]
+    if fam not in ('Indicator', 'PeriodicGauss', 'Bspline'):
+        firsts += [('partial2', lambda g: g.partial2(p0, idx, idx), lambda: ref.partial2(p0, idx, idx)), ('hessian', lambda g: g.hessian(p0), lambda: ref.hessian(p0))]
+    for nm, fn, rf in firsts:
+        with r.op(key + ':first-call:' + nm):
+            got = np.asarray(fn(make(case)), dtype=float); want = np.asarray(rf(), dtype=float)
+            r.true(key + ':first-call:' + nm + ':value', got.shape == want.shape and np.allclose(got, want, rtol=1e-14, atol=0),
+                   '%s as first call on a fresh object: %s, expected %s' % (nm, got.tolist(), want.tolist()))
     h = 1e-30
     for p in pts:
         sc = 1.0
